@@ -48,7 +48,10 @@ func (vr *ErrorResponse) Decode(e enc.Encoder, response []byte) error {
 	}
 	data := bytes.NewBuffer(val)
 	str, err := data.ReadString(0)
-	if err != io.EOF {
+	if err == nil {
+		// the error text runs to the end of the answer; a NUL inside it is not something the server writes
+		return errors.Errorf("Malformed error text in the response")
+	} else if err != io.EOF {
 		return errors.WithStack(err)
 	}
 	for _, e := range BadErrors {
